@@ -33,6 +33,10 @@ func genBindings(t *rapid.T) map[string]string {
 	if rapid.Bool().Draw(t, "xmlPrefix") {
 		ns["xml"] = xmodel.XMLNS
 	}
+	if rapid.IntRange(0, 3).Draw(t, "emptyPrefix") == 0 {
+		// a binding for the empty prefix changes nothing: XPath 1.0 has no default namespace for name tests
+		ns[""] = []string{"urn:x", "urn:y"}[rapid.IntRange(0, 1).Draw(t, "emptyPrefixURI")]
+	}
 	// prefixes that spell axis names and node types: with the document's element
 	// names (child, self, text, node, comment, ancestor) they give QNames whose both
 	// halves are reserved words
@@ -204,14 +208,46 @@ func TestC01(t *testing.T) {
 		if rapid.Bool().Draw(t, "innerCtx") {
 			ctx = p.doc.All[rapid.IntRange(0, len(p.doc.All)-1).Draw(t, "ctx")]
 		}
-		c := &evalCase{Events: ev, Ctx: ctx.Ref(), NS: ns, Vars: []varBinding{mixedNodeVar(t, p.doc, "w")}}
+		c := &evalCase{Events: ev, Ctx: ctx.Ref(), NS: ns, Vars: []varBinding{mixedNodeVar(t, p.doc, "w"), {Local: "n0", T: "num", Num: "2"}}}
 		_, env, err := c.settings(p)
 		if err != nil {
 			t.Fatalf("harness: %v", err)
 		}
-		g := &xast.G{T: t, Env: xast.GenEnv{ElemNames: queryable(elems), AttrNames: queryable(attrs), PITargets: targets, Prefixes: prefixesOf(ns), NoLang: true, NodeVars: []string{"w"}}}
-		c.Expr = genWalk(t, g, env, ctx, ctx == p.doc.Root, 4, 0)
+		g := &xast.G{T: t, Env: xast.GenEnv{ElemNames: queryable(elems), AttrNames: queryable(attrs), PITargets: targets, Prefixes: prefixesOf(ns), NoLang: true, NodeVars: []string{"w"}, NumVars: []string{"n0"},
+			NoAbs: ctx != p.doc.Root}}
+		maxPreds := 0
+		if rapid.IntRange(0, 3).Draw(t, "withPreds") == 0 {
+			maxPreds = 1 // '//x[p]' is '/descendant-or-self::node()/child::x[p]': the predicate counts per parent
+		}
+		c.Expr = genWalk(t, g, env, ctx, ctx == p.doc.Root, 4, maxPreds)
+		if maxPreds > 0 {
+			// positional predicates whose text shows no number: [$n0] (= [2]), [string-length('ab')]
+			for _, s := range c.Expr.Steps {
+				for i, pr := range s.Preds {
+					if pr.K == "num" {
+						switch rapid.IntRange(0, 2).Draw(t, "hiddenNumber") {
+						case 0:
+							s.Preds[i] = xast.Var("n0")
+						case 1:
+							s.Preds[i] = xast.Call("string-length", xast.Str("ab"))
+						}
+					}
+				}
+			}
+		}
 		c.Text = xast.Render(c.Expr, xast.RapidChooser{T: t}, xast.Style{Abbrev: rapid.Bool().Draw(t, "abbrev")})
+		if len(queryable(elems)) > 0 && rapid.IntRange(0, 7).Draw(t, "slashSlashPred") == 0 {
+			// the section 2.5 NOTE: //x[n] is /descendant-or-self::node()/child::x[n], one count per parent - also
+			// when the predicate's text shows no number
+			pred := []*xast.Expr{xast.Var("n0"), xast.Call("string-length", xast.Str("ab")), xast.Num("2"), xast.Call("last"), xast.Bin("-", xast.Call("last"), xast.Num("1"))}[rapid.IntRange(0, 4).Draw(t, "ssPred")]
+			last := &xast.Step{DS: true, Axis: "child", Test: xast.Name("", queryable(elems)[rapid.IntRange(0, len(queryable(elems))-1).Draw(t, "ssName")]), Preds: []*xast.Expr{pred}}
+			if rapid.Bool().Draw(t, "ssAny") {
+				last.Test = xast.Any()
+			}
+			c.Expr = extendPath(c.Expr, last)
+			c.Text = xast.Render(c.Expr, xast.Abbrev, xast.Style{Abbrev: true})
+			st.Class("walk-ends-with //x[n]")
+		}
 		out, why, err := evalPrepared(c, p)
 		if out == discarded {
 			st.Discard(why)
